@@ -179,6 +179,19 @@ def neutral_equal(a, b, tol=1e-7):
             return True
         if 'raised' in a and 'raised' in b:
             return a['raised'][0] == b['raised'][0]
+        if 'dict' in a and 'dict' in b:
+            # Python dict equality ignores insertion order
+            if len(a['dict']) != len(b['dict']):
+                return False
+            rest = list(b['dict'])
+            for k, v in a['dict']:
+                for j, (k2, v2) in enumerate(rest):
+                    if neutral_equal(k, k2, tol) and neutral_equal(v, v2, tol):
+                        del rest[j]
+                        break
+                else:
+                    return False
+            return True
         if set(a) != set(b):
             # a bool result from numpy may arrive as num
             return False
